@@ -75,6 +75,12 @@ func gammaIncCF(a, x float64) float64 {
 		return z
 	}
 
+	if math.IsInf(x, 1) {
+		// Q(a, +Inf) = 0. The recurrence below turns Inf into
+		// NaN and never converges.
+		return 0
+	}
+
 	b := x + 1 - a
 	c := math.MaxFloat64
 	d := 1 / b
